@@ -2,6 +2,7 @@
 Line-protocol driver for C19.  Hashes and blobs are decimal ids (hash 0 = zero hash, 1 = emptyRoot,
 2 = emptyState; blob 0 = the empty byte string).
   RESET                                    forget blob table and state                          -> ok
+  RESTART                                  a new Sync over the same database (requests, queue, membatch lost) -> ok
   BLOB id hash X                           blob `id` hashes to `hash`, does not decode as node  -> ok
   BLOB id hash N children leaf             children = `-` | h:step,h:step..   leaf = `-` | E | A | A:s5,r7,..
   DB hash blob|-                           initial database entry                               -> ok
@@ -96,6 +97,7 @@ def apply (d : DState) (op : Op) : DState × String :=
 def stepLine (d : DState) (line : String) : DState × String :=
   match fields line with
   | ["RESET"] => ({}, "ok")
+  | ["RESTART"] => ({ d with st := St.init d.st.db }, "ok")
   | ["BLOB", id, h, "X"] =>
     match id.toNat?, h.toNat? with
     | some id, some h => ({ d with blobs := setBlob d.blobs id (h, none) }, "ok")
